@@ -2,9 +2,11 @@ mod backends;
 mod cmp;
 mod engine;
 mod cases;
+mod catalog;
 mod props;
 mod proto;
 mod rng;
+mod rollrun;
 mod types;
 
 use std::io::{BufRead, Write};
